@@ -481,7 +481,7 @@ func TestHistories(t *testing.T) {
 
 		// unrelated extra items from an independent generator with disjoint names
 		px := p
-		px.Probes, px.Generics = false, false
+		px.Probes, px.Generics, px.ReturnedFns = false, false, false
 		g2 := lang.NewGen(rt, px)
 		g2.SetNameOffset(5000)
 		p2 := g2.GenProgramNoMain()
@@ -795,6 +795,33 @@ func genSharedState(rt *rapid.T) ([]*lang.TopItem, []string) {
 		}
 		seqs = append(seqs, seq)
 	}
+	// a user type named like a type parameter of an unrelated package_info signature: the signature's K and
+	// V are its own, the record V declared before stays what later annotations mean
+	if rapid.Bool().Draw(rt, "typeParamNamedLikeType") {
+		labels["a record named like a package_info type parameter"] = true
+		tn := rapid.SampledFrom([]string{"V", "K", "T"}).Draw(rt, "paramLikeName")
+		tV := lang.TRec(tn)
+		seq := []*lang.TopItem{{Types: []*lang.TypeDecl{{Rec: &lang.RecDecl{Name: tn, Fields: []lang.Field{{Name: "Vx", T: lang.TInt}, {Name: "Vy", T: lang.TInt}}}}}, Label: "rec " + tn}}
+		pk := &lang.TopItem{Raw: "package_info _ =\n  let Memo<K, V>: K->V->V\n  let Keep<T>: T->T", Label: "pkginfo"}
+		var rest []*lang.TopItem
+		for k := rapid.IntRange(1, 3).Draw(rt, "usesOfV"); k > 0; k-- {
+			fn++
+			f := &lang.FuncDecl{Name: fmt.Sprintf("fn%d", fn)}
+			if rapid.Bool().Draw(rt, "annotatedUse") {
+				f.Params = []lang.Param{{Name: "v", T: tV, Annot: true}}
+				f.Ret = lang.TInt
+				f.Body = lang.Blk(lang.Bin("+", lang.TInt, &lang.Expr{K: "field", Name: "Vx", T: lang.TInt, Args: []*lang.Expr{lang.Var("v", tV)}},
+					&lang.Expr{K: "field", Name: "Vy", T: lang.TInt, Args: []*lang.Expr{lang.Var("v", tV)}}))
+			} else {
+				f.Ret = tV
+				f.Body = lang.Blk(&lang.Expr{K: "reclit", Name: tn, T: tV, Fields: []lang.FieldInit{{Name: "Vx", E: lang.Int(1)}, {Name: "Vy", E: lang.Int(2)}}})
+			}
+			rest = append(rest, &lang.TopItem{Func: f, Label: f.Name})
+		}
+		at := rapid.IntRange(0, len(rest)).Draw(rt, "pkgInfoAt")
+		rest = append(rest[:at], append([]*lang.TopItem{pk}, rest[at:]...)...)
+		seqs = append(seqs, append(seq, rest...))
+	}
 	// merge the per-set sequences, each keeping its own order
 	pos := make([]int, len(seqs))
 	for {
@@ -831,7 +858,7 @@ func TestSharedFieldRecords(t *testing.T) {
 		items := analyse(its)
 		base := Run{Files: []File{{Path: "prog.fo", Content: fileText(items, seqInts(len(items)))}}}
 		px := lang.Full
-		px.MaxUnits, px.Probes, px.Generics = 2, false, false
+		px.MaxUnits, px.Probes, px.Generics, px.ReturnedFns = 2, false, false, false
 		g2 := lang.NewGen(rt, px)
 		g2.SetNameOffset(5000)
 		extra := analyse(g2.GenProgramNoMain().Items)
